@@ -214,6 +214,7 @@ def checks (w : World) : Label → Checks
      ("peRecTrip: recursion guard does not raise here", recursionTrips w b e)]
   | .hSched p i b e k =>
     [("hSched: instance id is not the next instance id", i == w.ni),
+     ("hSched: unknown event", e < w.ne),
      ("hSched: executor has no open activation for this (bus, event)", actIs w p b e),
      ("hSched: executor is not active (run loop without lock / instance not awaiting)", execActive w p),
      ("hSched: handler is not the next one of the activation",
@@ -417,20 +418,38 @@ def applyDispatch (w : World) (p : Proc) (b : BId) (e : EId) (res : DRes) : Worl
   | .ok => cleanup (dChild (dEnqueue w1 b e) ctx e) b
   | _ => w1
 
+def Fin.status : Fin → Status
+  | .completed => .completed
+  | _ => .error
+
+def Fin.err : Fin → ErrK
+  | .completed => .none
+  | .errHandler => .handler
+  | .errValidation => .validation
+  | .errTimeout => .timeout
+  | .errCancelled => .cancelled
+
 def applyFinish (w : World) (i : IId) (r : Fin) : World :=
   let I := w.inst i
-  let (st, err) : Status × ErrK := match r with
-    | .completed => (.completed, .none)
-    | .errHandler => (.error, .handler)
-    | .errValidation => (.error, .validation)
-    | .errTimeout => (.error, .timeout)
-    | .errCancelled => (.error, .cancelled)
-  let w := w.modEv I.ev fun E => E.updRes I.bus I.hid fun x => { x with status := st, err := err }
-  let w := w.setInst i { I with st := .finished }
-  let w := match w.act I.exec with
-    | some A => w.setAct I.exec (some { A with running := A.running.erase i })
-    | none => w
-  if r == .errTimeout then cancelPendingChildren w (w.ne + 1) I.ev else w
+  let w1 := w.modEv I.ev fun E => E.updRes I.bus I.hid fun x => { x with status := r.status, err := r.err }
+  let w2 := w1.setInst i { I with st := .finished }
+  let w3 := match w.act I.exec with
+    | some A => w2.setAct I.exec (some { A with running := A.running.erase i })
+    | none => w2
+  if r == .errTimeout then cancelPendingChildren w3 (w.ne + 1) I.ev else w3
+
+/-- `execute_handler` up to its first suspension: the result is marked started, the handler instance (task) is created
+    with its deadline, the activation moves the handler from `todo` to `running` -/
+def applySched (w : World) (p : Proc) (i : IId) (b : BId) (e : EId) (k : HId) : World :=
+  let kind := kindOf w b k
+  let to := (w.ev e).timeout
+  let w1 := w.modEv e fun E => E.updRes b k fun r => { r with status := .started }
+  let w2 := w1.setInst i { bus := b, ev := e, hid := k, kind := kind, exec := p, st := .scheduled,
+                           deadline := if to == 0 || kind.isSync then 0 else w.now + to }
+  let w3 := match w.act p with
+    | some A => w2.setAct p (some { A with todo := A.todo.tail, running := A.running ++ [i] })
+    | none => w2
+  w3.setNi (w.ni + 1)
 
 /-- `process_event` entry, executor side: a run loop acquires the global lock, an awaiting handler hands over the event it took -/
 def peEnter (w : World) (p : Proc) (b : BId) : World :=
@@ -479,16 +498,7 @@ def apply0 (w : World) : Label → World
     | .rl b' => rlBack w b'
     | .inst i => w.modInst i fun I => { I with took := none, st := .running }
     | .ext => w
-  | .hSched p i b e k =>
-    let w := w.modEv e fun E => E.updRes b k fun r => { r with status := .started }
-    let kind := kindOf w b k
-    let to := (w.ev e).timeout
-    let w := w.setInst i { bus := b, ev := e, hid := k, kind := kind, exec := p, st := .scheduled,
-                           deadline := if to == 0 || kind.isSync then 0 else w.now + to }
-    let w := match w.act p with
-      | some A => w.setAct p (some { A with todo := A.todo.tail, running := A.running ++ [i] })
-      | none => w
-    w.setNi (w.ni + 1)
+  | .hSched p i b e k => applySched w p i b e k
   | .hStart i => w.modInst i fun I => { I with st := .running }
   | .hEnd i out =>
     let w' := w.modInst i fun I => { I with st := .ended, out := out }
